@@ -151,7 +151,8 @@ func classifyError(e gwError) (string, bool) {
 		return "ENullBubble", names
 	case strings.HasPrefix(e.Message, "unexpected response code"), strings.Contains(e.Message, "connection reset"),
 		strings.Contains(e.Message, "connection refused"), strings.HasPrefix(e.Message, "response exceeded maximum size"),
-		strings.HasPrefix(e.Message, "error decoding response"), strings.Contains(e.Message, "(simulated)"):
+		strings.HasPrefix(e.Message, "error decoding response"), strings.Contains(e.Message, "(simulated)"),
+		strings.HasSuffix(e.Message, ": EOF"): // a real connection dropped before the first response byte
 		return "EOther", names
 	case names:
 		return "EDownstream", names
